@@ -1,0 +1,40 @@
+//! Off-by-default hooks for external runtime-verification harnesses.
+//!
+//! Nothing in here changes the behaviour of the library unless a harness flips a switch.
+
+use std::cell::Cell;
+use std::collections::BTreeMap;
+use std::sync::Mutex;
+
+thread_local! {
+    // per thread, so that harnesses can build packages on several threads at once
+    static FORCE_LARGE_FILES: Cell<bool> = const { Cell::new(false) };
+}
+static COUNTERS: Mutex<BTreeMap<&'static str, u64>> = Mutex::new(BTreeMap::new());
+
+/// Make the builder use the "large file" (stripped cpio) payload format regardless of size
+/// (for packages built on the calling thread).
+pub fn set_force_large_files(on: bool) {
+    FORCE_LARGE_FILES.with(|f| f.set(on));
+}
+
+pub fn force_large_files() -> bool {
+    FORCE_LARGE_FILES.with(|f| f.get())
+}
+
+/// Count that a code path of interest was reached.
+pub fn hit(name: &'static str) {
+    *COUNTERS
+        .lock()
+        .unwrap_or_else(|e| e.into_inner())
+        .entry(name)
+        .or_insert(0) += 1;
+}
+
+pub fn snapshot() -> BTreeMap<&'static str, u64> {
+    COUNTERS.lock().unwrap_or_else(|e| e.into_inner()).clone()
+}
+
+pub fn reset() {
+    COUNTERS.lock().unwrap_or_else(|e| e.into_inner()).clear();
+}
